@@ -537,7 +537,15 @@ func runScenarios(c *engine.Ctx, al []call, scenarios []scenario, bound int) {
 				if rs := sched.NewRaceReports(); len(rs) > 0 {
 					viol = engine.Violate("data-race", rs[0].Signature, "schedule %s\n%s", sched.DescribeSchedule(x), rs[0].Text)
 					// ThreadSanitizer prints a report once per process: confirm by replaying this very schedule in 4 fresh processes
-					viol.PreConfirmed = 1 + confirmRace(s, x.Choices, rs[0].Signature)
+					// (ThreadSanitizer has no false positives, but it re-detects a given access pattern only some of the
+					// time - e.g. a read after a write by the same goroutine may not be kept in its shadow cells -, so one
+					// re-detection in 8 fresh-process replays of the schedule confirms the report)
+					k := confirmRace(s, x.Choices, rs[0].Signature)
+					viol.Detail = fmt.Sprintf("re-detected in %d of 8 fresh-process replays of this schedule\n%s", k, viol.Detail)
+					viol.PreConfirmed = 1
+					if k >= 1 {
+						viol.PreConfirmed = 5
+					}
 					return false
 				}
 				key := fmt.Sprint(res)
@@ -582,7 +590,7 @@ func runScenarios(c *engine.Ctx, al []call, scenarios []scenario, bound int) {
 func confirmRace(s scenario, choices []int, sig string) int {
 	self, _ := os.Executable()
 	n := 0
-	for i := 0; i < 4; i++ {
+	for i := 0; i < 8; i++ {
 		base := filepath.Join(os.Getenv("MCVERIF_SCRATCH"), fmt.Sprintf("tsanc-%d-%d", os.Getpid(), i))
 		start := "warm"
 		if s.fresh {
